@@ -38,5 +38,9 @@ ERR_ATOMS = ['nosuch > 1', 'total > "x"', 'sum(category) > 1', 'max(by("bogus"))
              'sum(by("month")) > 100', 'payments.count > 1', 'total[0] > 1', '-category == 1', 'months + "1" > 1']
 CORE = ['true', 'category == "food"', 'months >= 3', 'total > 100', 'cv < 0.3', '"recurring" in tags', 'g', 'v > 10', 'nosuch > 1',
         'max(count(by("day"))) >= 2']
-GLOBALS = [[], [('g', 'months >= 2')], [('g', 'nosuch + 1')], [('g', 'total / months'), ('h', 'g > 50')]]
-LOCALS = [[], [('v', 'total / months')], [('v', 'avg(payments)'), ('w', 'v * 2')], [('g', 'false')]]
+# (declarations see everything a filter sees: the merchant AND the analysis period - 5 months over 2 years here, which is
+#  neither of the 12 months / 1 year a period-less evaluation would assume)
+GLOBALS = [[], [('g', 'months >= 2')], [('g', 'nosuch + 1')], [('g', 'total / months'), ('h', 'g > 50')],
+           [('g', 'months * 2 >= period("month")'), ('h', 'total / period("year") > 50')]]
+LOCALS = [[], [('v', 'total / months')], [('v', 'avg(payments)'), ('w', 'v * 2')], [('g', 'false')],
+          [('v', 'period("month") * 2')], [('v', 'total / period("year")'), ('g', 'months * 4 >= period("month")')]]
